@@ -430,6 +430,10 @@ int reb_simulation_remove_particle(struct reb_simulation* const r, int index, in
         if(r->free_particle_ap){
             r->free_particle_ap(&r->particles[index]);
         }
+        if(index<r->N_active){
+            r->N_active--;
+        }
+        reb_tree_delete(r); // The only leaf refers to the removed particle.
 		reb_simulation_warning(r, "Last particle removed.");
 		return 1;
 	}
